@@ -1,16 +1,18 @@
 SPECIFICATION Spec
 CONSTANTS
   Mode = "lattice"
-  Slice = "flags"
+  Slice = "flags6"
   MaxFields = 2
-  MaxLen = 3
+  MaxLen = 2
   Salts = {0, 1}
   SetVals = {2}
+  MaxKw = 9
 INVARIANT TypeOK
 INVARIANT HashTableTotal
 INVARIANT BindConflictFree
 INVARIANT SignatureOK
 INVARIANT OrderLaws
 INVARIANT EqHashCoherent
-INVARIANT ImplVsRef
+INVARIANT ImplVsRefCfg
+INVARIANT ImplVsRefStep
 CHECK_DEADLOCK FALSE
